@@ -116,10 +116,19 @@ def catalogue():
                 "uint%s a\n@sealed\n" % big, "void%s\n@sealed\n" % big, "uint8[%s] a\n@sealed\n" % big, "uint8 X = %s\n@sealed\n" % big, "float64 X = %s\n@sealed\n" % big,
                 "@print %s / 0\n@sealed\n" % big, "@print %s %% 0\n@sealed\n" % big, "@print 10 ** %d / 0\n@sealed\n" % n, "@assert %s == 1\n@sealed\n" % big, "@extent %s\n" % big,
                 "Dep.%s.0 d\n@sealed\n" % big, "Dep.1.%s d\n@sealed\n" % big, "@print {%s}\n@sealed\n" % big, "@print {%s, 1}.max\n@sealed\n" % big, "@print -%s\n@sealed\n" % big, "@print %s | 1\n@sealed\n" % big]
-    # a service type wherever a serializable type is expected
+    # set algebra: every binary operator over small sets (disjoint, overlapping, mixed element types) followed by every set attribute
+    sets = ["{1}", "{1, 2}", "{3}", "{'a'}", "{'b'}", "{true}", "{1/2, 1}", "1", "'a'"]
+    for a, b in itertools.product(sets, repeat=2):
+        for op in ("|", "&", "^", "+", "-", "*", "/", "%", "**", "<", "<=", "==", "!=", ">", ">=", "||", "&&"):
+            for attr in ("", ".min", ".max", ".count"):
+                out.append("@print (%s %s %s)%s\n@sealed\n" % (a, op, b, attr))
     for use in ("Svc.1.0 s", "Svc.1.0[2] s", "Svc.1.0[<=2] s", "@print Svc.1.0._extent_", "@print Svc.1.0._bit_length_", "@print Svc.1.0", "@assert Svc.1.0.K == 1", "uint8 X = Svc.1.0", "Svc.1.0 X = 1", "@print Svc.1.0 == Svc.1.0", "@print {Svc.1.0}"):
         out.append(use + "\n@sealed\n")
         out.append("@union\nuint8 a\n" + use + "\n@sealed\n")
+        # ... followed by statements that evaluate the layout while the offender is still pending
+        for after in ("@print _offset_", "@assert _offset_ == {0}", "uint8 after\n@print _offset_.max", "void3\n@assert _offset_.count == 1", "@extent _offset_.max"):
+            out.append(use + "\n" + after + ("\n@sealed\n" if "@extent" not in after else "\n"))
+            out.append("uint8 before\n" + use + "\n" + after + ("\n@sealed\n" if "@extent" not in after else "\n"))
     out += ["", "\n", "\r\n", "\r", " ", "\t\n", "@sealed\r", "uint8 a\r@sealed\n", "﻿uint8 a\n@sealed\n", "uint8 a\x00\n@sealed\n", "uint8 а\n@sealed\n", "uint8 a @sealed\n", "uint8 a\x0c\n@sealed\n", "uint8 a\x0b@sealed\n", "uint8 a\x1c\n@sealed\n", "uint8 a\x85@sealed\n"]
     return out
 
